@@ -19,7 +19,8 @@ RULE = ('every operator/helper instance (13 WireVector operators, invert, getite
         'amount and by int amount 1..w-1, barrel_shifter with bit_in=1) x operand kinds {WireVector, int, '
         'bool, Verilog string, Const signed/unsigned/with bitwidth} x width pairs; operand values exhaustive '
         'for widths <= 4 (quick) / <= 5 (thorough), boundary values (0,1,2^k-1,2^(k-1),2^(k-1)-1,random) '
-        'for widths up to 130; slices with bounds in {None,-n-1..n+1} and steps {None,1,2,-1,-2} (all of '
+        'for widths up to 130; int / Const(int) / Verilog-string operands k in {2^n-2..2^n+1} for n in {31,32,33,48,49,50,'
+        '52,53,54,63,64,65,100,128} (Const(k) len, a+k, a-k, a&k, a*k, concat(a,k), w <<= k for w of n..n+2 bits); slices with bounds in {None,-n-1..n+1} and steps {None,1,2,-1,-2} (all of '
         'them for n <= 4/5, seeded samples above).  A case = (instance, widths, operand values); distinct by '
         'that key; non-trivial when the instance\'s output takes at least two values over the sweep')
 IMPORTS = 'From PyRTL Require Import Front.C06Harness.'
@@ -338,6 +339,65 @@ def kind_instances(rng, wa, tier):
     return L
 
 
+BIG_N = [31, 32, 33, 48, 49, 50, 52, 53, 54, 63, 64, 65, 100, 128]
+
+
+def bigconst_instances(wa):
+    """Python int / Const(int) / Verilog-string operands of large magnitude: k in {2^n-2, 2^n-1, 2^n, 2^n+1};
+    the Const must get the exact minimal width and the exact value (guards float-based width inference)."""
+    L = []
+    for n in BIG_N:
+        for k in ((1 << n) - 2, (1 << n) - 1, 1 << n, (1 << n) + 1):
+            kw = bitlen(k)
+            kinds = [('int', k), ('const', ('int', k), None, False), ('vstr', False, kw, k)]
+            # the constant on its own: Const(k) / as_wires(k): value and len()
+            L.append(Inst('Const:int:len', 'kind', 'pyrtl.Const(%d)' % k,
+                          'as_wires (OConst (OInt %d) None false) None' % k, (lambda va, vb, k=k, kw=kw: (k, kw))))
+            L.append(Inst('as_wires:int:len', 'kind', 'pyrtl.as_wires(%d)' % k, 'as_wires (OInt %d) None' % k,
+                          (lambda va, vb, k=k, kw=kw: (k, kw))))
+            L.append(Inst('Const:signed-int:len', 'kind', 'pyrtl.Const(%d, signed=True)' % k,
+                          'as_wires (OConst (OInt %d) None true) None' % k, (lambda va, vb, k=k, kw=kw: (k, kw + 1))))
+            L.append(Inst('Const:str:len', 'kind', 'pyrtl.Const("%d\'d%d")' % (kw, k),
+                          'as_wires (OConst (OVStr false %d %d) None false) None' % (kw, k),
+                          (lambda va, vb, k=k, kw=kw: (k, kw))))
+            L.append(Inst('Const:str:too-narrow', 'kind', 'pyrtl.Const("%d\'d%d")' % (kw - 1, k),
+                          'as_wires (OConst (OVStr false %d %d) None false) None' % (kw - 1, k),
+                          (lambda va, vb: 'raise')))
+            for kind in kinds:
+                pk, ck = py_kind(kind), coq_kind(kind)
+                cv, cw = spec_const(kind)
+                for op in ('+', '-', '&', '*'):
+                    f = BIN_SPECS[op]
+                    for side in ('r', 'l'):
+                        x, y = ('a', pk) if side == 'r' else (pk, 'a')
+                        cx, cy = ('(OWire a)', ck) if side == 'r' else (ck, '(OWire a)')
+                        if side == 'r':
+                            spec = (lambda va, vb, f=f, cv=cv, cw=cw: f(va, cv, wa, cw))
+                        else:
+                            spec = (lambda va, vb, f=f, cv=cv, cw=cw: f(cv, va, cw, wa))
+                        L.append(Inst('%s:%s:%s' % (op, side, kind_tag(kind)), 'kind', src_op(op, x, y),
+                                      'lift2 %s %s %s' % (COQ_BIN[op], cx, cy), spec,
+                                      mul_widths=(wa, cw) if op == '*' else None))
+                L.append(Inst('concat:a,%s' % kind_tag(kind), 'kind', 'pyrtl.concat(a, %s)' % pk,
+                              'lift2 (fun x y => concat [x; y]) (OWire a) %s' % ck,
+                              (lambda va, vb, cv=cv, cw=cw: ((va << cw) | cv, wa + cw))))
+                # w <<= k for a destination of exactly n bits (and n+1, n+2 bits)
+                for dw in (n, n + 1, n + 2):
+                    if kind[0] == 'const':     # a Const wire is truncated / zero-extended like any wire
+                        spec = (lambda va, vb, cv=cv, dw=dw: (cv % (1 << dw), dw))
+                    elif kind[0] == 'int':     # Const(k, bitwidth=dw): must fit
+                        spec = (lambda va, vb, cv=cv, cw=cw, dw=dw: (cv, dw) if cw <= dw else 'raise')
+                    else:                      # Const("<cw>'d<k>", bitwidth=dw): widths must agree
+                        spec = (lambda va, vb, cv=cv, cw=cw, dw=dw: (cv, dw) if cw == dw else 'raise')
+                    L.append(Inst('ilshift:%s' % kind_tag(kind), 'kind', 'assign(%d, %s)' % (dw, pk),
+                                  'ilshift (Some %d) %s' % (dw, ck), spec))
+            sc = spec_signed_const(('int', k))
+            L.append(Inst('signed_add:r:int', 'kind', 'pyrtl.signed_add(a, %d)' % k,
+                          'lift2s signed_add (OWire a) (OInt %d)' % k,
+                          (lambda va, vb, sc=sc: BIN_SPECS['signed_add'](va, sc[0], wa, sc[1]))))
+    return L
+
+
 def kind_tag(kind):
     t = kind[0]
     if t == 'const':
@@ -562,6 +622,10 @@ def make_jobs(ctx, only=None):
             jobs.append(Job('unary', unary_instances(r, wa, tier, False), wa, None, pts, False))
         if wa in kw:
             jobs.append(Job('kinds', kind_instances(ctx.sub_rng('kinds', wa), wa, tier), wa, None, pts, False))
+    # large-magnitude int / Const(int) / string operands (both tiers)
+    r = ctx.sub_rng('bigconst')
+    jobs.append(Job('bigconst', bigconst_instances(8), 8, None,
+                    [(v, None) for v in ([0, 1, 255, 128, 127] + [r.getrandbits(8)])], False))
     if only is not None:
         jobs = [j for j in jobs if (j.tag, j.wa, j.wb) == only]
     return jobs
